@@ -33,7 +33,7 @@ RULE = ("types: every constructor spine over {Vec, HashSet, Option, Result, Hash
         "1-tuple} to depth 2 (quick) / 3 (thorough) ending in each leaf {string, number, boolean, void, (), struct, enum-like name, mapped name}, "
         "plus random types to depth 6, each rendered by the five renderers and placed at a struct field, a parameter, parameter+channel, "
         "channel only (optionally with an enum and a member-less struct) through both real generators; malformed: 400 / 5000 TypeStructure values and mappings outside the feature set "
-        "(unknown primitives, non-identifier names, non-primitive mapping targets, any key type) where only model = implementation for the five renderers is compared; 350 cases with several parameters per command and several commands whose types render alike in one renderer only (Vec/HashSet, T/Result<T>), 300 cases with mapping targets beyond the primitives (unknown, any, number[], Date, Record, tuple, union) at field/parameter/channel position; 15 % of the type cases use serialised names that need quoting as keys and odd enum literals; projects: random graph projects (tools/projgen.py, incl. tuples of generics, renamed fields, raw identifiers), event projects (several emit sites per event name with different payload types, nested payload dependencies, several files), type_mappings whose keys are external names or project-defined types, and an oracle-only stream crossing defaultParameterCase / defaultFieldCase / includePrivate / typeMappings with both modes, generated by the "
+        "(unknown primitives, non-identifier names, non-primitive mapping targets, any key type) where only model = implementation for the five renderers is compared; 350 cases with several parameters per command and several commands whose types render alike in one renderer only (Vec/HashSet, T/Result<T>), 300 cases with mapping targets beyond the primitives (unknown, any, number[], Date, Record, tuple, union) at field/parameter/channel position; 15 % of the type cases use serialised names that need quoting as keys and odd enum literals; projects: random graph projects (tools/projgen.py, incl. tuples of generics, renamed fields, raw identifiers), projects with recursive and mutually recursive types beside unrelated roots (digraphs on three structs incl. self-loops, roots through parameter / return / channel / event), projects whose command names derive colliding type names with different parameter lists (declarations judged by occurrence and multiplicity), event projects (several emit sites per event name with different payload types, nested payload dependencies, several files), type_mappings whose keys are external names or project-defined types, and an oracle-only stream crossing defaultParameterCase / defaultFieldCase / includePrivate / typeMappings with both modes, generated by the "
         "real CLI in both modes. Non-trivial = the type has at least one constructor / the project emits at least one struct; "
         "distinct = distinct cases")
 TRUSTED = [
@@ -291,7 +291,9 @@ def judge(case, o, strings, s_or, proj, allowed, nontrivial=True):
     kf = None
     # a finding is excused only by the Rust type written at the very key where it shows (Item.key):
     # z.set at a key whose type is a Vec is a violation even if another member of the project is a set
-    kal = {k: set(v) for k, v in key_allowed}
+    kal = {}
+    for k, v in key_allowed:
+        kal.setdefault(k, set()).update(v)          # the same Item.key may occur twice (colliding command names)
     per_key_ok = all(set(kt) <= kal.get(k, set()) for k, kt in vkeys)
     module_tags = set(vt)
     seen_at_keys = set(t for _, kt in vkeys for t in kt)
@@ -561,6 +563,69 @@ def gen_event_project(rng):
     return {"files": {k: v for k, v in files.items() if v}, "config": {}}
 
 
+def gen_cyclic_project(rng, mask=None):
+    """recursive and mutually recursive types beside unrelated roots: a digraph on three structs (self-loops
+    included; `mask` selects the edges, all 512 in the thorough tier), each struct independently a root through
+    a command parameter, a return type, a channel or an event payload, or only reachable / unreachable"""
+    P = projgen.P
+    names = ["TreeNode", "Branch", "Leafy"]
+    if mask is None:
+        mask = rng.randrange(512)
+    files = {"src/lib.rs": [], "src/model.rs": []}
+    for i, n in enumerate(names):
+        fs = [{"name": "id", "ty": P("u32"), "serde": [], "validate": []}]
+        for j, t in enumerate(names):
+            if mask >> (3 * i + j) & 1:
+                ctx = rng.choice(["vec", "map_value", "vec_tuple", "tuple_last"])
+                fs.append({"name": "to_" + t.lower(), "ty": projgen.CONTEXTS[ctx](P(t)), "serde": [], "validate": []})
+        rng.choice(list(files.values())).append(
+            {"kind": "struct", "name": n, "derives": ["Serialize", "Deserialize"], "serde": [], "fields": fs})
+    files["src/model.rs"].append({"kind": "struct", "name": "Unrelated", "derives": ["Serialize", "Deserialize"], "serde": [],
+                                  "fields": [{"name": "v", "ty": P("bool"), "serde": [], "validate": []}]})
+    roles = [rng.choice(["param", "ret", "channel", "event", "none", "none"]) for _ in names]
+    if all(r == "none" for r in roles):
+        roles[rng.randrange(3)] = "param"
+    fns = rng.sample(FN_NAMES, 4)
+    params, body, ret = [{"name": "app", "ty": P("AppHandle", segs=["tauri"])}, {"name": "u", "ty": P("Unrelated")}], [], None
+    for n, r in zip(names, roles):
+        if r == "param":
+            params.append({"name": "the_" + n.lower(), "ty": rng.choice([P(n), P("Vec", P(n))])})
+        elif r == "channel":
+            params.append({"name": "on_" + n.lower(), "ty": P("Channel", P(n))})
+        elif r == "event":
+            body.append("let ev_%s: %s = todo!();" % (n.lower(), n))
+            body.append({"emit": "changed-" + n.lower(), "recv": "app", "payload": "ev_" + n.lower()})
+        elif r == "ret":
+            files["src/lib.rs"].append({"kind": "fn", "name": fns.pop(), "attrs": [["tauri", "command"]], "async": False, "vis": "pub",
+                                        "params": [{"name": "key", "ty": P("String")}], "ret": P("Result", P(n), P("String")), "body": []})
+    rng.choice(list(files.values())).append({"kind": "fn", "name": fns.pop(), "attrs": [["tauri", "command"]], "async": True, "vis": "pub",
+                                             "params": params, "ret": None, "body": body})
+    return {"files": {k: v for k, v in files.items() if v}, "config": {}}
+
+
+COLLIDING = [["get_user2", "get_user_2"], ["save", "save"], ["load_it", "loadIt"], ["fetch_all", "fetchAll", "fetch_all"], ["ping", "Ping"]]
+
+
+def gen_collision_project(rng):
+    """several commands whose derived TypeScript names collide (digits / underscores, the same function name in
+    two files, case variants) with DIFFERENT parameter lists; every colliding command has at least one value
+    parameter (a parameter schema exists for each, so the k-th declarations of the two modes correspond)"""
+    P = projgen.P
+    files = {"src/lib.rs": [], "src/other.rs": [], "src/sub/third.rs": []}
+    order = list(files)
+    tys = [P("u32"), P("String"), P("bool"), P("Vec", P("i64")), P("HashMap", P("String"), P("u8")), projgen.Tup(P("String"), P("f64"))]
+    pnames = ["alpha", "beta_two", "gamma", "delta_x", "eps"]
+    for group in rng.sample(COLLIDING, rng.randint(1, 3)):
+        for k, fn in enumerate(group):
+            ps = [{"name": n, "ty": rng.choice(tys)} for n in rng.sample(pnames, rng.randint(1, 3))]
+            # the same Rust name twice must live in different files
+            files[order[k % 3]].append({"kind": "fn", "name": fn, "attrs": [["tauri", "command"]], "async": False, "vis": "pub",
+                                        "params": ps, "ret": None, "body": []})
+    files["src/lib.rs"].append({"kind": "fn", "name": "sync_now", "attrs": [["command"]], "async": False, "vis": "pub",
+                                "params": [{"name": "flag", "ty": P("bool")}], "ret": None, "body": []})
+    return {"files": {k: v for k, v in files.items() if v}, "config": {}}
+
+
 def add_mappings(case, rng):
     """type_mappings at project level: external names used by fields, and keys that coincide with types the
     project defines (structs and enums, reachable or not)"""
@@ -580,6 +645,11 @@ def add_mappings(case, rng):
 def project_cases(tier, rng):
     n = 120 if tier == "quick" else 1500
     cases = []
+    masks = list(range(512)) if tier != "quick" else [rng.randrange(512) for _ in range(60)] + [1, 16, 256, 10, 273, 511, 84, 0]
+    for i, mk in enumerate(masks):
+        cases.append({"id": "cyclic-%d" % i, "project": gen_cyclic_project(rng, mk), "clean": False})
+    for i in range(n // 5):
+        cases.append({"id": "collide-%d" % i, "project": gen_collision_project(rng), "clean": False})
     for i in range(n // 4):
         c = gen_event_project(rng)
         if rng.random() < 0.3:
